@@ -107,7 +107,13 @@ impl<'c> SetCookie<'c> {
                 },
                 Some(1) => {
                     r.consume("=").ok_or_else(|| format!("Invalid `Max-Age`: No `=` found"))?;
-                    let value = r.read_until(b"; ").iter().fold(0, |secs, d| 10*secs + (*d - b'0') as u64);
+                    let digits = r.read_until(b"; ");
+                    if digits.is_empty() || !digits.iter().all(u8::is_ascii_digit) {
+                        return Err(format!("Invalid `Max-Age`: not a number"))
+                    }
+                    let value = digits.iter()
+                        .try_fold(0u64, |secs, d| secs.checked_mul(10)?.checked_add((*d - b'0') as u64))
+                        .ok_or_else(|| format!("Invalid `Max-Age`: too large"))?;
                     this.MaxAge = Some(value)
                 }
                 Some(2) => {
